@@ -1,5 +1,5 @@
 PROP = {
-    "regen_files": ["GenGuards.v"],
+    "regen_files": ["GenGuards.v", "GenHeap.v"],
     "num": 15,
     "runs": [
         {"tag": "c15", "bin": "c15"},
@@ -11,7 +11,7 @@ PROP = {
     "nontrivial": lambda case, obs: case.split()[2] != "0",
     "manifest": {
         "design_ref": "DESIGN.md section 7, C15",
-        "text": "Theorems in Coq over a heap model (blocks with size/alignment, allocator event trace) of every conversion in src/impl_alloc.rs and box_arr!, for every N including 0, every element size including 0, every source length and capacity: contents and order preserved; Ok exactly when the source length is N, otherwise LengthError with every source element dropped exactly once; into_boxed_slice, into_vec, try_from_boxed_slice and try_from_vec (len = cap) return the same block with zero allocator events; layouts agree. Tie to the code: extracted model vs the real functions under a recording global allocator (block identity, allocator calls during the conversion, contents, drops). NOT expressible in the hub and established only by the run: the boxed constructors build multi-MiB arrays on a thread with a 256 KiB stack (debug build).",
+        "text": "Theorems in Coq over a heap model (blocks with size/alignment, allocator event trace) of every conversion in src/impl_alloc.rs and box_arr!, for every N including 0, every element size including 0, every source length and capacity: contents and order preserved; Ok exactly when the source length is N, otherwise LengthError with every source element dropped exactly once; into_boxed_slice, into_vec, try_from_boxed_slice and try_from_vec (len = cap) return the same block with zero allocator events; layouts agree. Tie to the code: extracted model vs the real functions under a recording global allocator (block identity, allocator calls during the conversion, contents, drops). NOT expressible in the hub and established only by the run: the boxed constructors build multi-MiB arrays on a thread with a 256 KiB stack (debug build). T3 tie: the bodies of into_boxed_slice, into_vec, try_from_boxed_slice, try_from_vec, TryFrom<Vec<T>>, TryFrom<Box<[T]>>, From<GenericArray> for Box<[T]> / Vec<T> are regenerated from src/impl_alloc.rs on every run (coq/gen/GenHeap.v) and proved, from every allocator state, to be the hub functions (coq/theories/HeapProg.v, HeapTie.v, C15_source_*).",
         "technique": "machine-checked proof in Coq (all N, sizes, lengths, capacities) + extracted-model vs implementation differential correspondence with a recording global allocator + small-stack run",
     },
 }
